@@ -85,6 +85,11 @@ mxArray* mexGetVariable(const char* workspace, const char* name);
 int mexPutVariable(const char* workspace, const char* name, const mxArray* v);
 int mexCallMATLAB(int nlhs, mxArray* plhs[], int nrhs, mxArray* prhs[], const char* name);
 int mexAtExit(void (*fn)(void));
+/* persistence requests are accepted and change nothing here: an array handed back through plhs belongs to the caller either way */
+void mexMakeArrayPersistent(mxArray* a);
+void mexMakeMemoryPersistent(void* p);
+void mexLock(void);
+void mexUnlock(void);
 #ifdef __cplusplus
 }
 // harness-side helpers (not part of the MEX API)
